@@ -1474,6 +1474,10 @@ def m_starts_with(I, st, call):
         if call.name == "starts_with" and isinstance(call.args[1], IntV) and call.args[1].aff.is_const() and call.args[1].aff.c < 0x80:
             key = ("boundary", s.base)
             s2.ghost[key] = tuple(s2.ghost.get(key, ())) + (s.off + 1,)
+    if s is not None and call.name == "contains" and isinstance(call.args[1], IntV) and call.args[1].aff.is_const():
+        # not contained: the whole string is free of the character
+        key = ("absent", call.args[1].aff.c)
+        st.ghost[key] = tuple(st.ghost.get(key, ())) + ((s.base, s.off, s.len),)
     out = [(st, boolv(False))]
     if not s2.dead:
         out.append((s2, boolv(True)))
